@@ -282,7 +282,27 @@ func (w *lwalk) stmt(s ast.Stmt) {
 				return true
 			})
 			// count-down form: for i := n; i > 0; i-- (n bound to a read count)
-			if be, ok := st.Cond.(*ast.BinaryExpr); ok && be.Op == token.GTR && countIdx < 0 {
+			// (possibly one conjunct of the condition: `left > 0 && r.Err() == nil`)
+			var conj []ast.Expr
+			var split func(e ast.Expr)
+			split = func(e ast.Expr) {
+				if pe, isP := e.(*ast.ParenExpr); isP {
+					split(pe.X)
+					return
+				}
+				if b, isB := e.(*ast.BinaryExpr); isB && b.Op == token.LAND {
+					split(b.X)
+					split(b.Y)
+					return
+				}
+				conj = append(conj, e)
+			}
+			split(st.Cond)
+			for _, cj := range conj {
+				be, ok := cj.(*ast.BinaryExpr)
+				if !ok || be.Op != token.GTR || countIdx >= 0 {
+					continue
+				}
 				if lit, isLit := be.Y.(*ast.BasicLit); isLit && lit.Value == "0" {
 					if as, isAs := st.Init.(*ast.AssignStmt); isAs && len(as.Lhs) == 1 && len(as.Rhs) == 1 {
 						iv := w.identObj(as.Lhs[0])
